@@ -97,7 +97,7 @@ var rxNear = map[string][]string{
 	`[0-9]+`: {"1a", "a1", "x", ""}, `[a-z]+`: {"A", "1", "aB", ""}, `[A-Z][A-Z]`: {"A", "ABC", "ab"}, `\d{1,3}`: {"1234", "a", ""},
 	`(?:foo|bar)`: {"fo", "foobar", "baz"}, `.*`: {"é"}, `ab`: {"a", "xabx", "b"}, `[a-z]*`: {"A", "1"}, `^[0-9]+$`: {"4a", "a4"}, `[^x]+`: {"x", "xx", "axb"},
 }
-var valPool = []string{"x", "12", "ab", "foo", "AB", "é", "a.b", "x:get", "a", "b", "users", "x.foo", "q_x", "{v}", "a:b", "*"}
+var valPool = []string{"x", "12", "ab", "foo", "AB", "é", "a.b", "x:get", "a", "b", "users", "x.foo", "q_x", "{v}", "a:b", "*", "x\ny"}
 
 type tplTok struct {
 	kind int // 0 lit 1 var 2 rx 3 suffix 4 tail
@@ -637,7 +637,7 @@ func tabulateRouting(o *Oracles, t TableSpec, path string) {
 	}
 	for _, re := range res {
 		un, errU := regexp.Compile(re)
-		full, errF := regexp.Compile("^(?:" + re + ")$")
+		full, errF := regexp.Compile("(?s)^(?:" + re + ")$") // path_expression.go compiles with (?s) (repair F8)
 		for tk := range toks {
 			o.rx[[2]string{re, tk}] = errU == nil && un.MatchString(tk)
 			o.rxfull[[2]string{re, tk}] = errF == nil && full.MatchString(tk)
